@@ -119,7 +119,7 @@ def run(repo_dir, harnesses, jobs=8, harness_timeout=600, extra_flags=(), cbmc_a
     return results, log, compile_ok, wall, cmd
 
 
-def playback(repo_dir, rel_file, mod_name, harness, extra_flags=(), cbmc_args=(), timeout=900):
+def playback(repo_dir, rel_file, mod_name, harness, extra_flags=(), cbmc_args=(), timeout=300):
     """Obtain Kani's concrete counterexample for a failing harness and run it natively.
 
     Returns (test_source or None, native_failed: bool or None, native_output)."""
